@@ -132,6 +132,56 @@ def check_process_defaults(kind, t_div, extra):
     return fails[:3]
 
 
+# ---- daughters generated by a Composer (Division / MetaDivision ask the composer once per daughter) ---------------------
+from vivarium.core.composer import Composer
+
+
+class Growth(Process):
+    defaults = {'rates': [1.0], 'table': np.ones(2), 'tags': set(), 'nested': {'k': [1]}, 'timestep': 1.0}
+
+    def ports_schema(self):
+        return {'global': {'mass': {'_default': 0.0, '_divider': 'split'}}}
+
+    def next_update(self, timestep, states):
+        return {'global': {'mass': sum(self.parameters['rates']) * timestep}}
+
+
+class GCell(Composer):
+    defaults = {'growth': {'rates': [1.0, 1.0], 'table': np.ones(2), 'tags': {'a'}, 'nested': {'k': [1, 2]}}}
+
+    def generate_processes(self, config):
+        return {'growth': Growth(config['growth'])}
+
+    def generate_topology(self, config):
+        return {'growth': {'global': ('global',)}}
+
+
+def check_composer_daughters():
+    """two compartments generated from one composer (the daughters of a division) share no mutable parameter object with each
+    other or with the composer: what one daughter's process does to its own parameters stays with that daughter"""
+    fails = []
+    comp = GCell({})
+    d1 = comp.generate({'agent_id': '10'})
+    d2 = comp.generate({'agent_id': '11'})
+    p1, p2 = d1['processes']['growth'].parameters, d2['processes']['growth'].parameters
+    for name in ('rates', 'table', 'tags'):
+        if p1[name] is p2[name]:
+            fails.append('the processes of two daughters generated by one composer share the parameter object %r' % name)
+        if p1[name] is comp.config['growth'][name]:
+            fails.append('a generated process shares the parameter object %r with the composer config' % name)
+    if p1['nested']['k'] is p2['nested']['k']:
+        fails.append('the processes of two daughters share the nested parameter list nested/k')
+    p1['rates'][0] = 0.5
+    p1['nested']['k'].append(99)
+    if p2['rates'] != [1.0, 1.0] or comp.config['growth']['rates'] != [1.0, 1.0] or p2['nested']['k'] != [1, 2]:
+        fails.append('a change of daughter 10 parameters shows up in daughter 11 / the composer: %r %r %r'
+                     % (p2['rates'], comp.config['growth']['rates'], p2['nested']['k']))
+    later = comp.generate({'agent_id': '12'})['processes']['growth'].parameters
+    if later['rates'] != [1.0, 1.0]:
+        fails.append('a compartment generated later starts from parameters changed by an earlier daughter: %r' % (later['rates'],))
+    return fails[:3]
+
+
 def check(sd):
     rng = random.Random(sd)
     fails = []
@@ -233,7 +283,8 @@ def main():
     a = ap.parse_args()
     if a.replay:
         d = json.load(open(a.replay))['scenario']
-        fails = check_process_defaults(*d['process_defaults']) if 'process_defaults' in d else check(d['rng'])
+        fails = check_process_defaults(*d['process_defaults']) if 'process_defaults' in d else \
+            (check_composer_daughters() if d.get('composer_daughters') else check(d['rng']))
         L.emit_result({'status': 'reproduced' if fails else 'not-reproduced', 'failed': fails})
         return
     n = 200 if a.tier == 'quick' else 3000
@@ -250,6 +301,13 @@ def main():
             failures.append({'id': 'C11.bounded.division#%d: %s' % (i, fails[0][:260]), 'replay': rp})
             if len(failures) >= 3:
                 break
+    if len(failures) < 3:
+        evaluations += 1
+        fails = check_composer_daughters()
+        distinct.add('composer-daughters')
+        if fails:
+            rp = L.write_replay(a.out, 'C11', 'composer', {'composer_daughters': True}, fails, extra={'driver': 'bounded.c11'})
+            failures.append({'id': 'C11.bounded.composer: %s' % fails[0][:260], 'replay': rp})
     for kind in ('array', 'list'):
         for t_div in (1, 2, 3):
             for extra in (1, 3):
